@@ -231,9 +231,11 @@ def assemble(prop, tier, seed, unit_results, fn_results, wall):
                 ob = dict(ob, verdict="undecided", reason="engine disagrees with CPython on this function (cross-check)")
             obligations.append({"name": ob["name"], "verdict": ob["verdict"], "backend": ob["backend"] or "z3",
                                 "seconds": ob["seconds"], "unit": tag})
-            if ob["verdict"] == "refuted" and "candidate model" in (ob["backend"] or "") and (ob.get("replay") or {}).get("status") != "confirmed":
-                # a candidate counter-model (relaxed / finite instance of the hypotheses) that the real code does not confirm
-                # decides nothing
+            if ob["verdict"] == "refuted" and "quantifier-free relaxation" in (ob["backend"] or "") and (ob.get("replay") or {}).get("status") != "confirmed":
+                # a candidate counter-model of the relaxation (quantified hypotheses dropped) that the real code does not confirm
+                # decides nothing.  (Models of the finite-model search keep every hypothesis, instantiated over the whole index
+                # range of the bounded sequences: they are reported like solver models, with no-failing-input-found when the
+                # replay does not confirm them.)
                 obligations[-1]["verdict"] = "undecided"
                 undecided.append({"obligation": ob["name"], "unit": tag, "reason": "candidate counter-model not confirmed by the replay on the real code "
                                   f"({(ob.get('replay') or {}).get('status')}): {ob.get('reason') or ''}"[:300]})
